@@ -642,6 +642,38 @@ class Prov:
                     if fo and fo["k"] in ("copy", "move"):
                         st.append(fo["place"]["local"])
         self._memo[key] = out
+        self._memo[("seen",) + key] = seen
+        return out
+
+    def source_locals(self, local, interproc=True):
+        """the locals visited while deriving `local` (everything it is computed from, inside this body)"""
+        self.atoms(local, interproc=interproc)
+        return self._memo.get(("seen", local, interproc), {local})
+
+    def atoms_with_contents(self, o, **kw):
+        """operand atoms plus what was put into the collections the operand derives from: `v.push(x)` / `m.insert(k, x)` / `v.extend(xs)` on a local that
+        `o` is computed from contribute the atoms of x (a flow the plain derivation does not follow: the call writes through its `&mut` receiver)"""
+        out = set(self.operand_atoms(o, **kw))
+        l = o["place"]["local"] if o["k"] in ("copy", "move") else None
+        if l is None:
+            return out
+        srcs = self.source_locals(l, kw.get("interproc", True))
+        for blk in self.b.normal_blocks():
+            t = blk["term"]
+            if t["k"] != "call" or not t["callee"] or len(t["args"]) < 2:
+                continue
+            if not re.search(r"::(push|push_back|push_front|insert|extend|extend_from_slice|append)(::<.*>)?$", t["callee"]["base"]):
+                continue
+            r0 = t["args"][0]
+            if r0["k"] not in ("copy", "move"):
+                continue
+            tgt = {r0["place"]["local"]}
+            for kind, st, bb in self.defs.get(r0["place"]["local"], ()):
+                if kind == "assign" and st["rv"]["k"] == "ref":
+                    tgt.add(st["rv"]["place"]["local"])
+            if tgt & set(srcs):
+                for a in t["args"][1:]:
+                    out |= self.operand_atoms(a, **kw)
         return out
 
     # direct producer: follow whole-local moves/copies back to the producing call or aggregate
